@@ -29,7 +29,7 @@ from pyvc.interp import PyRaise
 from pyvc.loops import LoopSpec
 from pyvc.models import GhostLock
 from pyvc.harness import native_call
-from .common import raw, loop_keys
+from .common import harness_connection, native_connection, lock_name, raw, loop_keys
 from .c11 import AbsDeque, AbsItem
 from . import c01
 
@@ -71,10 +71,13 @@ def _package_functions():
     return funcs
 
 
+LOCK_ATTR = ['_write_lock']
+
+
 def _lexically_locked(fdef):
     locked = set()
     for w in ast.walk(fdef):
-        if isinstance(w, ast.With) and any(ast.unparse(it.context_expr).endswith('_write_lock') for it in w.items):
+        if isinstance(w, ast.With) and any(ast.unparse(it.context_expr).split('.')[-1] == LOCK_ATTR[0] for it in w.items):
             for inner in ast.walk(w):
                 locked.add(id(inner))
     return locked
@@ -122,6 +125,7 @@ def locked_only_functions(funcs):
 def scan_sites():
     """All call sites, in the whole package, of the operations that touch the wire or remove from the queue."""
     found = {}
+    LOCK_ATTR[0] = lock_name()
     funcs = _package_functions()
     locked_only = locked_only_functions(funcs)
     for owner, defs in funcs.items():
@@ -194,10 +198,11 @@ class WritePacketLock(Unit):
     def run(self, I):
         E = I.E
         lock = GhostLock()
-        conn = object.__new__(Connection)
+        conn = harness_connection()
         ctx = ConnectionContext(protocol_version=757)
         old = [Packet(), Packet()]
-        conn.__dict__.update(_write_lock=lock, context=ctx, _outgoing_packet_queue=deque(old))
+        conn.__dict__[lock_name()] = lock
+        conn.__dict__.update(context=ctx, _outgoing_packet_queue=deque(old))
         calls = []
         I.override(raw(Connection, '_write_packet'), lambda I_, c, p: calls.append((p, lock.depth)), kind='contract')
         force = bool(E.fork(2, 'force'))
@@ -275,8 +280,9 @@ class DisconnectFlush(Unit):
             log.append(name)
         sock = types.SimpleNamespace(shutdown=lambda how: ev('shutdown'), close=lambda: ev('close'))
         fobj = types.SimpleNamespace(close=lambda: ev('file.close'))
-        conn = object.__new__(Connection)
-        conn.__dict__.update(_write_lock=lock, _outgoing_packet_queue=self.queue, socket=sock, file_object=fobj, connected=True,
+        conn = harness_connection()
+        conn.__dict__[lock_name()] = lock
+        conn.__dict__.update(_outgoing_packet_queue=self.queue, socket=sock, file_object=fobj, connected=True,
                              networking_thread=types.SimpleNamespace(interrupt=False), new_networking_thread=None)
         try:
             I.call(raw(Connection, 'disconnect'), conn, immediate)
@@ -326,7 +332,7 @@ def replay_close_race():
     for immediate in (True, False):
         for hook in ('before-shutdown', 'in-shutdown'):
             log, started = [], []
-            conn = object.__new__(Connection)
+            conn = native_connection()
             lock = threading.RLock()
             conn.context = ConnectionContext(protocol_version=757)
             conn._outgoing_packet_queue = deque()
@@ -373,7 +379,7 @@ def replay_close_race():
 
                 def close(self):
                     log.append('close')
-            conn._write_lock = Lock()
+            setattr(conn, lock_name(), Lock())
             conn.socket = Sock()
             conn.file_object = types.SimpleNamespace(close=lambda: log.append('file.close'))
             log.append('disconnecting')
@@ -395,8 +401,8 @@ def replay_flush():
         for immediate in (False, True):
             n += 1
             log = []
-            conn = object.__new__(Connection)
-            conn._write_lock = threading.RLock()
+            conn = native_connection()
+            setattr(conn, lock_name(), threading.RLock())
             conn._outgoing_packet_queue = deque(range(size))
             conn._write_packet = lambda p: log.append(p)
             conn.socket = types.SimpleNamespace(shutdown=lambda how: log.append('shutdown'), close=lambda: log.append('close'))
@@ -440,8 +446,8 @@ class Threads(Unit):
 
 def replay_threads(nthreads, per_thread, enabled=False):
     import select
-    conn = object.__new__(Connection)
-    conn._write_lock = threading.RLock()
+    conn = native_connection()
+    setattr(conn, lock_name(), threading.RLock())
     conn.context = ConnectionContext(protocol_version=757)
     conn._outgoing_packet_queue = deque()
     conn.early_outgoing_packet_listeners, conn.outgoing_packet_listeners = [], []
@@ -456,7 +462,7 @@ def replay_threads(nthreads, per_thread, enabled=False):
 
     def drain():
         while not stop or conn._outgoing_packet_queue:
-            with conn._write_lock:
+            with getattr(conn, lock_name()):
                 n = 0
                 while conn._pop_packet():
                     n += 1
@@ -507,8 +513,8 @@ def replay_threads(nthreads, per_thread, enabled=False):
 def replay_directed(enabled=False, second='forced'):
     """One adversarial schedule, deterministically: while the draining thread is between the two sends of a queued
     frame A, another thread attempts write_packet(B, force=True) (or a second drain).  With the lock held B must wait."""
-    conn = object.__new__(Connection)
-    conn._write_lock = threading.RLock()
+    conn = native_connection()
+    setattr(conn, lock_name(), threading.RLock())
     conn.context = ConnectionContext(protocol_version=757)
     conn._outgoing_packet_queue = deque()
     conn.early_outgoing_packet_listeners, conn.outgoing_packet_listeners = [], []
@@ -528,7 +534,7 @@ def replay_directed(enabled=False, second='forced'):
         elif second == 'disconnect':
             conn.disconnect()                   # flushes C (queued behind A) and closes
         else:
-            with conn._write_lock:
+            with getattr(conn, lock_name()):
                 conn._pop_packet()
 
     class Sock(object):
@@ -550,12 +556,12 @@ def replay_directed(enabled=False, second='forced'):
     conn.write_packet(A)
     if second != 'forced':
         conn.write_packet(C)
-    with conn._write_lock:
+    with getattr(conn, lock_name()):
         conn._pop_packet()
     if started:
         started[0].join(5)
     if conn.socket is not None:
-        with conn._write_lock:
+        with getattr(conn, lock_name()):
             while conn._pop_packet():
                 pass
     data, pos, ids = b''.join(chunks), 0, []
